@@ -32,7 +32,14 @@ def noisy(kind, base):
     return base + (SEP + n if n else "")
 
 
+# An undefined step is written in several ways: text that resembles no definition, and near misses of the
+# registered patterns "<kind> {n:d}" (wrong letter case, longer word, extra word) -- the id stays the last word.
+UNDEF_FORMS = ["undefined %d", "Pass %d", "undefined %d", "FAIL %d", "passes %d", "pass x %d", "undefined %d", "eRROR %d"]
+
+
 def step_name(s):
+    if s["kind"] == "undefined":
+        return noisy("step", UNDEF_FORMS[s["id"] % len(UNDEF_FORMS)] % s["id"])
     return noisy("step", "%s %d" % (s["kind"], s["id"]))
 
 
@@ -126,7 +133,7 @@ class _LogList(list):
         super().append(step)
 
 
-def run_program(prog, extra_formatters=None, reporters=None, config_hook=None, want_model=False):
+def run_program(prog, extra_formatters=None, reporters=None, config_hook=None, want_model=False, after_run=None):
     from behave.configuration import Configuration
     from behave.runner import ModelRunner
     from behave.step_registry import StepRegistry
@@ -310,6 +317,10 @@ def run_program(prog, extra_formatters=None, reporters=None, config_hook=None, w
                 crashed = "%s: %s" % (type(e).__name__, e)
         finally:
             Scenario.continue_after_failed_step = old_flag
+    after = None
+    if after_run is not None:
+        # called on the model exactly as the run left it, before this harness reads anything from it
+        after = after_run(runner, features)
 
     def scen_res(sc):
         return {"name": sc.name, "status": sc.status.name, "hook_failed": bool(sc.hook_failed),
@@ -334,6 +345,8 @@ def run_program(prog, extra_formatters=None, reporters=None, config_hook=None, w
     obs = {"failed": failed, "crashed": crashed, "log": log, "fmt": fmt, "tree": tree,
            "aborted": bool(runner.aborted), "hook_failures": runner.hook_failures,
            "undefined": len(runner.undefined_steps), "stdout": sink.getvalue()[-2000:]}
+    if after_run is not None:
+        obs["after_run"] = after
     if want_model:
         obs["_features"] = features
         obs["_runner"] = runner
